@@ -65,6 +65,8 @@ Definition check_atom (o : obs_graph) (k : Z) (a : attrs) : nat :=
       end
   end.
 
+(** the three attributes the PROPERTY names (fixed here; not the code's default argument) *)
+Definition c09_attrs : list pystr := [S "fragid"; S "fragname"; S "weight"].
 Definition has_mapping (a : attrs) : bool := ahas (S "mapping") a.
 Definition same_attr (k : pystr) (a b : attrs) : bool :=
   match aget k a, aget k b with
@@ -83,7 +85,7 @@ Definition check_h (o : obs_graph) (k : Z) (a : attrs) : nat :=
       else match onode o anchor with
            | None => 3%nat
            | Some an =>
-               if forallb (fun attr => same_attr attr a an) rebuild_copy_attrs_default then 0%nat else 4%nat
+               if forallb (fun attr => same_attr attr a an) c09_attrs then 0%nat else 4%nat
            end
   | _ => 3%nat
   end.
@@ -106,7 +108,7 @@ Definition check_explicit (final : list (Z * attrs)) (a : attrs) : nat :=
   if is_H a && has_mapping a then
     match find_explicit final (getd (S "mapping") a VNone) (getd (S "fragid") a VNone) with
     | None => 5%nat
-    | Some b => if forallb (fun attr => same_attr_strict attr a b) rebuild_copy_attrs_default then 0%nat else 6%nat
+    | Some b => if forallb (fun attr => same_attr_strict attr a b) c09_attrs then 0%nat else 6%nat
     end
   else 0%nat.
 Definition explicit_kept (before final : list (Z * attrs)) : nat :=
